@@ -1,4 +1,9 @@
+mod coord;
+mod gen;
 mod kernel;
+mod oracle;
+mod scen;
+mod util;
 
 use kernel::run::{run_sim, RunSpec};
 use kernel::sys;
@@ -33,7 +38,7 @@ fn smoke(path: &str, seeds: &[u64], gens: usize) {
             sys::monitor(|| kernel::prng::fnv64(solution.as_bytes()))
         });
         let dt = (sys::real_now_ns() - t0) as f64 / 1e6;
-        println!(
+        say!(
             "seed={} strategy={} W={} clock={} sol={:?} log={:016x}/{} reads={} sim_s={:.3} fj={} leaves={} steals={} nontrivial={} live={} used={} real_ms={:.1}",
             seed, spec.strategy.name(), spec.workers, spec.clock_policy.name(),
             out.result.as_ref().map(|h| format!("{h:016x}")).map_err(|p| format!("{}@{}", p.message, p.location)),
@@ -43,8 +48,31 @@ fn smoke(path: &str, seeds: &[u64], gens: usize) {
     }
 }
 
+/// One un-simulated solve: initialises process globals (stdout buffer, lazy statics) outside of the arena.
+fn warm_up() {
+    let mut allowed = gen::problem::Features::all();
+    allowed.req_breaks = false;
+    allowed.relations = false;
+    let tuning = scen::w1::W1Tuning { max_jobs: 6, max_generations: 3, allowed };
+    for seed in [1u64, 2, 3] {
+        let (case, _) = scen::w1::make_case(seed, &tuning);
+        let problem_text = serde_json::to_string(&case.problem).unwrap();
+        let matrix_texts: Vec<String> = case.matrices.iter().map(|m| serde_json::to_string(m).unwrap()).collect();
+        let readers: Vec<BufReader<&[u8]>> = matrix_texts.iter().map(|m| BufReader::new(m.as_bytes())).collect();
+        if let Ok(problem) = (BufReader::new(problem_text.as_bytes()), readers).read_pragmatic() {
+            let cfg = r#"{"termination":{"maxGenerations":3},"environment":{"logging":{"enabled":false}}}"#;
+            let config = vrp_cli::extensions::solve::config::read_config(BufReader::new(cfg.as_bytes())).unwrap();
+            let _ = vrp_cli::get_solution_serialized(Arc::new(problem), config);
+        }
+    }
+}
+
 fn main() {
     let args: Vec<String> = std::env::args().collect();
+    sys::silence_stdout();
+    if args.get(1).map(|s| s.as_str()) != Some("smoke") {
+        warm_up();
+    }
     match args.get(1).map(|s| s.as_str()) {
         Some("smoke") => {
             let path = args.get(2).expect("path");
@@ -52,9 +80,159 @@ fn main() {
             let seeds: Vec<u64> = args[4..].iter().filter_map(|s| s.parse().ok()).collect();
             smoke(path, &seeds, gens);
         }
+        Some("check") | Some("worker") | Some("replay") => {
+            std::process::exit(cli(&args));
+        }
+        Some("w1try") => {
+            let from: u64 = args[2].parse().unwrap();
+            let to: u64 = args[3].parse().unwrap();
+            let max_jobs: usize = args.get(4).and_then(|s| s.parse().ok()).unwrap_or(12);
+            let mut allowed = gen::problem::Features::all();
+            allowed.req_breaks = false;
+            allowed.relations = false;
+            let tuning = scen::w1::W1Tuning { max_jobs, max_generations: 20, allowed };
+            let mut n_issues = 0;
+            let mut rules: std::collections::BTreeMap<String, (u64, u64)> = Default::default();
+            let mut discarded = 0;
+            let t0 = sys::real_now_ns();
+            for seed in from..to {
+                let (case, feats) = scen::w1::make_case(seed, &tuning);
+                let out = scen::w1::execute(&case);
+                let v = scen::w1::judge(&case, &out);
+                if out.arena_live != 0 { say!("seed={seed} LEAK live={}", out.arena_live); }
+                if let Some(d) = &v.discarded { discarded += 1; if args.len() > 5 { say!("seed={seed} discarded: {d}"); } }
+                for i in &v.issues {
+                    let e = rules.entry(format!("{}:{}", i.prop, i.rule)).or_insert((0, seed));
+                    e.0 += 1;
+                }
+                if !v.issues.is_empty() {
+                    n_issues += 1;
+                    if args.len() > 5 {
+                        say!("seed={seed} features={:?}", feats.names());
+                        for i in v.issues.iter().take(4) { say!("   {}:{} {}", i.prop, i.rule, i.msg); }
+                    }
+                }
+            }
+            let dt = (sys::real_now_ns() - t0) as f64 / 1e9;
+            say!("runs={} with_issues={} discarded={} wall={:.1}s", to - from, n_issues, discarded, dt);
+            for (k, v) in rules { say!("  {k}: {} (first seed {})", v.0, v.1); }
+        }
+        Some("w1dump") => {
+            let seed: u64 = args[2].parse().unwrap();
+            let max_jobs: usize = args.get(3).and_then(|s| s.parse().ok()).unwrap_or(12);
+            let mut allowed = gen::problem::Features::all();
+            allowed.req_breaks = false;
+            allowed.relations = false;
+            let tuning = scen::w1::W1Tuning { max_jobs, max_generations: 20, allowed };
+            let (case, _) = scen::w1::make_case(seed, &tuning);
+            let out = scen::w1::execute(&case);
+            let v = scen::w1::judge(&case, &out);
+            if let Some(sol) = &v.solution {
+                eprintln!("bundled checker: {:?}", oracle::bundled::run_bundled_checker(&case.problem, &case.matrices, sol));
+            }
+            say!("{}", serde_json::to_string_pretty(&serde_json::json!({"case": case.to_json(), "solution": v.solution,
+                "issues": v.issues.iter().map(|i| format!("{}:{} {}", i.prop, i.rule, i.msg)).collect::<Vec<_>>() })).unwrap());
+        }
         _ => {
             eprintln!("usage: vsim smoke <problem.json> <gens> <seeds..>");
             std::process::exit(2);
         }
+    }
+}
+
+fn scenario_for(prop: &str) -> Option<Box<dyn coord::Scenario>> {
+    match prop {
+        "C01" => Some(Box::new(scen::w1::W1Scenario { prop: "C01" })),
+        "C02" => Some(Box::new(scen::w1::W1Scenario { prop: "C02" })),
+        "C03" => Some(Box::new(scen::w1::W1Scenario { prop: "C03" })),
+        _ => None,
+    }
+}
+
+fn cli(args: &[String]) -> i32 {
+    let verif_dir = std::env::var("VERIF_DIR").unwrap_or_else(|_| "/verif".to_string());
+    match args[1].as_str() {
+        "check" => {
+            let prop = match args.get(2) {
+                Some(p) => p.clone(),
+                None => {
+                    eprintln!("usage: vsim check <property> [--tier quick|thorough] [--seed n] [--jobs n] [--cases n]");
+                    return 2;
+                }
+            };
+            let mut tier = std::env::var("VERIF_TIER").ok().and_then(|t| coord::Tier::from_name(&t)).unwrap_or(coord::Tier::Quick);
+            let mut seed = std::env::var("VERIF_SEED").ok().and_then(|s| s.parse::<u64>().ok()).unwrap_or(coord::DEFAULT_SEED);
+            let mut jobs = std::thread::available_parallelism().map(|n| n.get()).unwrap_or(4).min(16);
+            let mut cases_override = None;
+            let mut i = 3;
+            while i < args.len() {
+                match (args[i].as_str(), args.get(i + 1)) {
+                    ("--tier", Some(v)) => tier = coord::Tier::from_name(v).unwrap_or(tier),
+                    ("--seed", Some(v)) => seed = v.parse().unwrap_or(seed),
+                    ("--jobs", Some(v)) => jobs = v.parse().unwrap_or(jobs),
+                    ("--cases", Some(v)) => cases_override = v.parse().ok(),
+                    _ => {}
+                }
+                i += 2;
+            }
+            let scn = match scenario_for(&prop) {
+                Some(s) => s,
+                None => {
+                    eprintln!("unknown property {prop}");
+                    return 2;
+                }
+            };
+            coord::check_main(scn.as_ref(), &prop, &coord::CheckOptions { tier, seed, jobs, verif_dir, cases_override })
+        }
+        "worker" => {
+            // worker <prop> <tier> <seed> <start> <stride> <total> <out> <deadline_s> <rechecks>
+            let scn = scenario_for(&args[2]).expect("unknown property");
+            let tier = coord::Tier::from_name(&args[3]).expect("tier");
+            let seed: u64 = args[4].parse().unwrap();
+            let start: u64 = args[5].parse().unwrap();
+            let stride: u64 = args[6].parse().unwrap();
+            let total: u64 = args[7].parse().unwrap();
+            let deadline: u64 = args[9].parse().unwrap();
+            let rechecks: Vec<u64> = args.get(10).map(|s| s.split(',').filter_map(|x| x.parse().ok()).collect()).unwrap_or_default();
+            coord::worker_main(scn.as_ref(), tier, seed, start, stride, total, &args[8], &rechecks, deadline);
+            0
+        }
+        "replay" => {
+            let (prop, path) = match (args.get(2), args.get(3)) {
+                (Some(p), Some(f)) => (p.clone(), f.clone()),
+                _ => {
+                    eprintln!("usage: vsim replay <property> <file>");
+                    return 2;
+                }
+            };
+            let scn = match scenario_for(&prop) {
+                Some(s) => s,
+                None => return 2,
+            };
+            let doc: serde_json::Value = match std::fs::read_to_string(&path).ok().and_then(|t| serde_json::from_str(&t).ok()) {
+                Some(d) => d,
+                None => {
+                    eprintln!("cannot read replay file {path}");
+                    return 2;
+                }
+            };
+            let rec = scn.replay(&doc);
+            let expect_rule = doc["expect"]["rule"].as_str().unwrap_or("");
+            let expect_log = doc["expect"]["log"].as_str().unwrap_or("");
+            say!("replay log={:016x} expected_log={} issues={}", rec.log_hash, expect_log, rec.issues.len());
+            for i in &rec.issues {
+                say!("  {}:{} {}", i.prop, i.rule, i.msg);
+            }
+            if !expect_log.is_empty() && format!("{:016x}", rec.log_hash) != expect_log {
+                eprintln!("HARNESS-ERROR: event log differs from the recorded one (the code under test changed, or nondeterminism)");
+            }
+            if rec.issues.iter().any(|i| i.prop == prop && (expect_rule.is_empty() || i.rule == expect_rule)) {
+                say!("VIOLATION property={} replay={}", prop, path);
+                1
+            } else {
+                0
+            }
+        }
+        _ => 2,
     }
 }
